@@ -38,6 +38,12 @@ type Spec struct {
 	// only at certain points, so messages are read between the moment the
 	// source checkpoint arrives and the pop.
 	Pops []bool `json:"pops,omitempty"`
+	// Rewind > 0: after reading Rewind messages the reader is rewound with Resume(nil) and reads the
+	// sequence again from message 0 (saves and pops go on); checkpoints popped before and after stay valid.
+	Rewind int `json:"rewind,omitempty"`
+	// Warm > 0: the reader a checkpoint is handed to is not brand-new but has already read Warm messages
+	// (the patcher's reader has read both containers before it is resumed from a checkpoint).
+	Warm int `json:"warm,omitempty"`
 }
 
 func body(m Msg, i int) []byte {
@@ -161,12 +167,22 @@ func check(s Spec) h.Result {
 		}
 		return reuse[k]
 	}
-	for i := 0; ; i++ {
-		if len(s.Saves) > 0 && s.Saves[i%len(s.Saves)] {
+	rewound := false
+	step := 0
+	for i := 0; ; i, step = i+1, step+1 {
+		if s.Rewind > 0 && !rewound && i == s.Rewind && i <= len(sent) {
+			if err := r.Resume(nil); err != nil {
+				return h.Result{Fail: fmt.Sprintf("Resume(nil) after %d messages: %v", i, err), Classes: cl}
+			}
+			rewound = true
+			i = 0
+			cl = append(cl, "reader:rewound-with-Resume(nil)")
+		}
+		if len(s.Saves) > 0 && s.Saves[step%len(s.Saves)] {
 			r.WantSave()
 		}
 		var c *wire.MessageReaderCheckpoint
-		if len(s.Pops) == 0 || s.Pops[i%len(s.Pops)] {
+		if len(s.Pops) == 0 || s.Pops[step%len(s.Pops)] {
 			c = r.PopCheckpoint()
 		}
 		if c != nil {
@@ -209,6 +225,11 @@ func check(s Spec) h.Result {
 		if err != nil {
 			return h.Failf("re-open: %v", err)
 		}
+		for k := 0; k < s.Warm && k < len(sent); k++ {
+			if err := r2.ReadMessage(target(s.Msgs[k])); err != nil {
+				return h.Result{Fail: fmt.Sprintf("second reader: reading message %d: %v", k, err), Classes: cl}
+			}
+		}
 		if err := r2.Resume(mc); err != nil {
 			return h.Result{Fail: fmt.Sprintf("Resume from the checkpoint popped before message %d of %d failed: %v", c.next, len(sent), err), Classes: cl}
 		}
@@ -240,6 +261,9 @@ func check(s Spec) h.Result {
 		if c.next == 0 {
 			cl = append(cl, "checkpoint:before-first-message")
 		}
+	}
+	if len(cks) > 0 && s.Warm > 0 {
+		cl = append(cl, "second-reader:had-read-messages-before-Resume")
 	}
 	if len(cks) > 0 {
 		cl = append(cl, "checkpoints:some")
@@ -320,6 +344,12 @@ var prop = h.Prop[Spec]{
 		}
 		if rapid.Bool().Draw(t, "pop-later") {
 			s.Pops = rapid.SliceOfN(rapid.Bool(), 2, 8).Draw(t, "pops")
+		}
+		if rapid.IntRange(0, 3).Draw(t, "rewind") == 0 && len(s.Msgs) > 0 {
+			s.Rewind = rapid.IntRange(1, len(s.Msgs)).Draw(t, "rewind-after")
+		}
+		if rapid.IntRange(0, 2).Draw(t, "warm-second-reader") == 0 {
+			s.Warm = rapid.IntRange(1, 3).Draw(t, "warm")
 		}
 		return s
 	},
